@@ -57,10 +57,14 @@ EXPLANATION = (
     "order, to TransformingUploadable(start, end) and Publish.update(blockhashes); (15) every function on the "
     "write / update / modify / read path returns the Deferred of the work it started (never None or falling off the "
     "end), _update sends every update either to the re-encode path or to the in-place chain fetch -> decode -> "
-    "build-and-publish with (data, offset), and the modify loop waits for its upload; (16) MDMFSlotWriteProxy places "
+    "build-and-publish with (data, offset); the modify loop runs _modify_once behind its servermap update, waits "
+    "for its upload, uploads the modifier's result, and skips the upload only where the result was found None or "
+    "equal to the old contents; Retrieve.decode (update path) decrypts what it decodes; (16) MDMFSlotWriteProxy places "
     "the block hash tree behind the last salt||block (evaluated __init__ + put_block); (17) the share writers' "
     "remote call carries, under the writer's share number, the queued data vectors (self._writevs / the joined SDMF "
-    "share) on every path. "
+    "share) on every path; (18) Retrieve.download starts the download for exactly [offset, offset + size) "
+    "(size=None: up to the end of file; reads of >= 1 byte are never short-circuited) and _start_download records "
+    "that range before the segment range is computed (evaluated). "
     "Undecided: block-hash-tree patching in Publish.update (old leaves kept, new leaves set), zfec and AES algebra, "
     "zero-length updates, sizes beyond 4 segments for the evaluated ranges (the arithmetic has no size-dependent "
     "branch other than the ones the grid crosses), whether the condition under which the proxies' tail block size "
